@@ -88,6 +88,8 @@ def gen_c02(repo: Path, prop: str, tier: str):
     text = [HEADER, SUPPORT, cim_support(d), small_support(d)]
 
     # ---------------------------------------------------------- constants
+    enum_bodies = []
+    flag_bodies = []
     for ename, table in sorted(spec["enums"].items()):
         it = d.get(ename)
         if it is None or it.kind != "enum":
@@ -97,17 +99,7 @@ def gen_c02(repo: Path, prop: str, tier: str):
         if missing:
             raise Undecided(f"spec table: {ename} has no variant(s) {missing} (renamed?)")
         body = "\n".join(f'    assert!({ename}::{v} as u8 == {n}, "{ename}::{v} is {n} on the wire");' for v, n in table.items())
-        extra = sorted(declared - set(table))
-        text.append(f"""
-//@ id: const_enum_{ename.lower()}
-//@ prop: C02
-//@ functions: {it.file} enum {ename}
-//@ statement: every enumerant of {ename} the specification table lists ({len(table)}) has the table's wire value{'; variants without a table row (not checked): ' + ', '.join(extra) if extra else ''}
-#[kani::proof]
-fn c02_const_enum_{ename.lower()}() {{
-{body}
-}}
-""")
+        enum_bodies.append((ename, len(table), body))
     for fname, table in sorted(spec["flags"].items()):
         it = d.get(fname)
         if it is None or it.kind != "bitflags":
@@ -118,14 +110,26 @@ fn c02_const_enum_{ename.lower()}() {{
             raise Undecided(f"spec table: {fname} has no constant(s) {missing} (renamed?)")
         # unexported flag types cannot be named from the harness module
         body = "\n".join(f'    assert!({fname}::{c}.bits() as u64 == {n}, "{fname}::{c} is bit value {n}");' for c, n in table.items())
-        text.append(f"""
-//@ id: const_flags_{fname.lower()}
+        flag_bodies.append((fname, len(table), body))
+    # one harness per family: every harness costs ~40 s of goto processing before CBMC starts
+    text.append(f"""
+//@ id: const_enums
 //@ prop: C02
-//@ functions: {it.file} bitflags {fname}
-//@ statement: every flag constant of {fname} the specification table lists ({len(table)}) has the table's bit value
+//@ functions: {'; '.join('enum ' + e for e, _, _ in enum_bodies)}
+//@ statement: every enumerant the specification table lists has the table's wire value: {', '.join(f'{e} ({n})' for e, n, _ in enum_bodies)}
 #[kani::proof]
-fn c02_const_flags_{fname.lower()}() {{
-{body}
+fn c02_const_enums() {{
+{chr(10).join(b for _, _, b in enum_bodies)}
+}}
+""")
+    text.append(f"""
+//@ id: const_flags
+//@ prop: C02
+//@ functions: {'; '.join('bitflags ' + e for e, _, _ in flag_bodies)}
+//@ statement: every flag constant the specification table lists has the table's bit value: {', '.join(f'{e} ({n})' for e, n, _ in flag_bodies)}
+#[kani::proof]
+fn c02_const_flags() {{
+{chr(10).join(b for _, _, b in flag_bodies)}
 }}
 """)
     for fname, table in sorted(spec.get("flags_unsure", {}).items()):
@@ -207,35 +211,56 @@ fn c02_const_plc_cars() {{
         it = d[ty]
         computed_pad = any(re.search(r"pad_(after|before)\s*=\s*[^0-9\s]", f.attr_text()) for f in it.fields)
         hdr_kinds.append((v, ty, val, g.needs_random_state, computed_pad))
-    for v, ty, val, rs, cpad in hdr_kinds:
+    def hdr_block(v, val):
+        return f"""    {{
+        let mut p = {val};
+        let reqi: u8 = kani::any();
+        p.reqi = RequestId(reqi);
+        let pk = Packet::{v}(p);
+        let mut w = Cursor::new(Vec::new());
+        let r = pk.write_le(&mut w);
+        assert!(r.is_ok());
+        let bytes = w.into_inner();
+        assert!(bytes[0] == {isp[v]}, "{v}: packet type number {isp[v]}");
+        assert!(bytes[1] == reqi, "{v}: byte 2 of the frame is the request id");
+        core::mem::forget(r);
+        core::mem::forget(pk);
+    }}
+"""
+
+    def is_text_kind(v, ty):
+        return bool(spec["kinds"].get(v, {}).get("text")) or any(f.ty == "String" for f in d[ty].fields)
+
+    quick_hdr = [h for h in hdr_kinds if not (h[0] in spec["kinds"] and not is_text_kind(h[0], h[1]))]
+    thorough_hdr = [h for h in hdr_kinds if h not in quick_hdr]
+    # quick: 4 kinds per harness (each harness costs ~40 s of goto processing before CBMC starts);
+    # kinds with a computed pad or a hash set get their own harness (unwind bound / stub)
+    special = [h for h in quick_hdr if h[3] or h[4]]
+    plain = [h for h in quick_hdr if not (h[3] or h[4])]
+    groups = [[h] for h in special] + chunks(plain, 4)
+    groups += [[h] for h in thorough_hdr]
+    for grp in groups:
+        # the 4-kind header harnesses cost 100-260 s each: thorough tier (quick keeps the type byte of the
+        # 36 kinds whose layout harness goes through the Packet writer, and the 4 special kinds)
+        tier = "thorough" if (grp[0] in thorough_hdr or len(grp) > 1) else "quick"
         attrs = ""
-        if rs:
+        if any(h[3] for h in grp):
             attrs += "#[kani::stub(std::hash::RandomState::new, verif_random_state)]\n"
-        if cpad:
+        if any(h[4] for h in grp):
             attrs += "#[kani::unwind(10)]\n"
+        names = [h[0] for h in grp]
+        hid = "_".join(n.lower() for n in names)
         text.append(f"""
-//@ id: header_{v.lower()}
+//@ id: header_{hid}
 //@ prop: C02
-//@ tier: {"thorough" if v in spec["kinds"] else "quick"}
+//@ tier: {tier}
 //@ functions: insim/src/packet.rs <Packet as BinWrite>::write_options
-//@ statement: packet kind {v}: the Packet writer emits the specification's type number {isp[v]} as the type byte and the request id (ALL 256 values) as the next byte - bytes 1 and 2 of every frame (byte 0 is the size: C03); other fields constant
+//@ statement: packet kind(s) {', '.join(f'{n} = {isp[n]}' for n in names)}: the Packet writer emits the specification's type number as the type byte and the request id (ALL 256 values) as the next byte - bytes 1 and 2 of every frame (byte 0 is the size: C03); other fields constant
 //@ timeout: 900
 #[kani::proof]
 #[kani::stub(core::fmt::write, verif_fmt_ok)]
-{attrs}fn c02_header_{v.lower()}() {{
-    let mut p = {val};
-    let reqi: u8 = kani::any();
-    p.reqi = RequestId(reqi);
-    let pk = Packet::{v}(p);
-    let mut w = Cursor::new(Vec::new());
-    let r = pk.write_le(&mut w);
-    assert!(r.is_ok());
-    let bytes = w.into_inner();
-    assert!(bytes[0] == {isp[v]}, "{v}: packet type number {isp[v]}");
-    assert!(bytes[1] == reqi, "{v}: byte 2 of the frame is the request id");
-    core::mem::forget(r);
-    core::mem::forget(pk);
-}}
+{attrs}fn c02_header_{hid}() {{
+{''.join(hdr_block(h[0], h[2]) for h in grp)}}}
 """)
     not_hdr = sorted(set(kinds) - {h[0] for h in hdr_kinds})
 
@@ -284,6 +309,7 @@ fn c02_const_plc_cars() {{
         text.append(f"""
 //@ id: layout_{v.lower()}
 //@ prop: C02
+//@ tier: {"thorough" if row.get("text") or any(f.ty == "String" for f in it.fields) else "quick"}
 //@ functions: {it.file} <{ty} as BinWrite>::write_options; insim/src/packet.rs <Packet as BinWrite>::write_options
 //@ statement: {v} (type {row['type']}, {size} bytes{' with empty text' if row.get('text') or any(f.ty == 'String' for f in it.fields) else ''}): for ALL values of the symbolic fields the Packet writer emits type number {isp[v]} and places {', '.join(f'{p}@{o}' for p, o in sorted(row['fields'].items(), key=lambda kv: kv[1]))} at the specification's frame offsets (little endian, times at the specification's resolution), writes 0 into spare byte(s) {row.get('spare', [])} and {size - 2} body bytes in total{'; frame bytes without a table row: ' + str(hole) if hole else ''}{'; reported only (unsure): ' + ', '.join(report) if report else ''}
 //@ covers: 1
